@@ -32,7 +32,11 @@ MStep ==
          se == IF isRet THEN tc.cenv ELSE e
          sf == envs[se].fn
          sn == IF isRet THEN tc.node ELSE n
-         readNames == IF n = 0 THEN {} ELSE UNION {NamesOfCell(e, c) : c \in rd' \ {0}}
+         \* what the body of a called lambda value reads belongs to the statement that wrote the lambda (the analysis
+         \* passes a lambda's reads on to the defining statement), not to the calling statement
+         readNames == IF n = 0 THEN {} ELSE UNION {NamesOfCell(e, c) : c \in (rd' \ lrd') \ {0}}
+         lamNames  == UNION {NamesOfCell(e, c) : c \in lrd'}
+         lamBad    == IF lnode' = 0 THEN {} ELSE lamNames \ ARead(ND(lnode').fn, lnode')
          wrCells == IF isPush THEN {} ELSE {c \in wr' : c <= Len(cells)}
          modNames == UNION {NamesOfCell(se, c) : c \in {x \in wrCells : cells'[x] # Unbound /\ x \notin hb'}}
          \* leaving a handler unbinds its `as` name implicitly (also when the handler re-assigned it): not a statement effect
@@ -44,6 +48,7 @@ MStep ==
      IN
      bad' = IF bad # "" THEN bad
             ELSE IF readBad # {} THEN ToString(<<"read", f, n, CHOOSE x \in readBad : TRUE>>)
+            ELSE IF lamBad # {} THEN ToString(<<"lambdaread", ND(lnode').fn, lnode', CHOOSE x \in lamBad : TRUE>>)
             ELSE IF modBad # {} THEN ToString(<<"modified", sf, sn, CHOOSE x \in modBad : TRUE>>)
             ELSE IF delBad # {} THEN ToString(<<"deleted", sf, sn, CHOOSE x \in delBad : TRUE>>)
             ELSE ""
